@@ -5,6 +5,7 @@ import os, sys, subprocess
 VERIF = os.path.dirname(os.path.dirname(os.path.abspath(__file__)))
 REPO = os.environ.get("VERIF_REPO", "/repo")
 DBDIR = os.path.join(REPO, "database")
+BUILD = os.environ.get("VERIF_BUILD") or os.path.join(VERIF, "build")
 
 TT_EMPTY, TT_ERROR, TT_LONG, TT_DOUBLE, TT_STRING = 0, 1, 2, 3, 4
 VR_OK, VR_OUTOFMEMORY, VR_BADVARTYPE, VR_INVALIDARG, VR_INVALIDROW, VR_INVALIDCOL = 0, -1, -2, -3, -4, -5
@@ -50,7 +51,7 @@ def lib(variant="rel"):
     global _lib
     if _lib is not None:
         return _lib
-    path = os.path.join(VERIF, "build", variant, "libiphreeqc_%s.so" % variant)
+    path = os.path.join(BUILD, variant, "libiphreeqc_%s.so" % variant)
     L = C.CDLL(path)
     I, S, V = C.c_int, C.c_char_p, C.c_void_p
     L.CreateIPhreeqc.restype = I
